@@ -78,7 +78,7 @@ class RefCycles:
     def matching(self, conds):
         m = np.ones(self.K, dtype=bool)
         for name, op, lit in conds:
-            m &= OPS[op](self.metrics[name], float(lit))
+            m &= OPS[op](self.metrics[name], float(lit))   # KeyError if the metric does not exist (see run_history)
         return m
 
     def pick(self, conds):
@@ -153,6 +153,8 @@ def gen_history(rng, ref):
     h = []
     counter = [0]
     in_use = set()
+    chain_names_ready = [False]
+    past_conds = []
 
     def fresh(prefix):
         counter[0] += 1
@@ -165,9 +167,42 @@ def gen_history(rng, ref):
         return '%s%d' % (prefix, counter[0])
     L = int(rng.integers(3, 13))
     have_subset = False
+    # a tenth of the histories follow a template: select, compute chain metrics, query a condition on a chain metric,
+    # select something else, recompute, and ask the very same question again
+    template = None
+    if rng.random() < .1 and K >= 3:
+        q = (gens.pick(rng, ['chain_position', 'chain_len_cycles', 'chain_ind']), gens.pick(rng, ['==', '!=', '>=', '<']),
+             literal(rng, float(gens.pick(rng, [0, 0, 1, 2]))))
+        template = ['pick1', 'chain_timings', ('query', q), 'pick2', 'chain_timings', ('query', q)]
+        L = len(template)
     shadow = {'is_good': ref.metrics['is_good'].astype(float)}
-    for _ in range(L):
+    for _step in range(L):
         r = rng.random()
+        if template is not None:
+            t = template[_step]
+            if t == 'chain_timings':
+                h.append({'op': 'chain_timings'})
+                chain_names_ready[0] = True
+                continue
+            if isinstance(t, tuple):
+                h.append({'op': gens.pick(rng, ['match', 'table_conditions']), 'conds': [t[1]]})
+                continue
+            # two different non-empty selections on the cycle quality / position in the recording
+            dur = np.array([e - s0 for s0, e in ref.segs], dtype=float)
+            if 'duration' not in names:
+                h.append({'op': 'timings'})
+                shadow['duration'] = dur
+                shadow['start_sample'] = np.array([s0 for s0, e in ref.segs], dtype=float)
+                shadow['stop_sample'] = np.array([e - 1 for s0, e in ref.segs], dtype=float)
+                names.extend(['start_sample', 'stop_sample', 'duration'])
+            thr = float(np.sort(shadow['start_sample'])[K // 2])
+            cond = ('start_sample', '<' if t == 'pick1' else '>=', literal(rng, thr)) if rng.random() < .5 else \
+                   ('duration', '>=' if t == 'pick1' else '<=', literal(rng, float(np.median(dur))))
+            h.append({'op': 'pick', 'conds': [cond]})
+            have_subset = True
+            in_use.clear()
+            in_use.add(cond[0])
+            continue
         if r < .22:
             name = fresh('m')
             fn = gens.pick(rng, sorted(FUNCS))
@@ -185,6 +220,15 @@ def gen_history(rng, ref):
             wrong = rng.random() < .15
             vals = np.round(rng.standard_normal(K + (int(rng.integers(1, 3)) if wrong else 0)), 1)
             asint = (not wrong) and rng.random() < .3
+            if (not wrong) and (not asint) and rng.random() < .35 and K > 1:
+                # near-duplicates: values that differ from another entry by far less than any sensible tolerance but are
+                # not equal to it ('==' and '!=' must still tell them apart), at small and at large magnitudes
+                if rng.random() < .4:
+                    vals = vals + float(gens.pick(rng, [3.6e6, 1e5]))
+                for _q in range(int(rng.integers(1, 4))):
+                    i, j = int(rng.integers(K)), int(rng.integers(K))
+                    if i != j:
+                        vals[i] = vals[j] + float(gens.pick(rng, [1e-9, -1e-9, 1e-7, 1e-12])) * max(abs(vals[j]), 1.0)
             if asint:
                 vals = np.round(vals * 3)
                 if rng.random() < .5 and K > 1:
@@ -206,6 +250,15 @@ def gen_history(rng, ref):
         elif r < .72:
             conds = []
             for _c in range(int(rng.integers(1, 4))):
+                usable = [c for c in past_conds if c[0] in names or (chain_names_ready[0] and (c[0] in TIMING or c[0] == 'chain_ind'))]
+                if usable and rng.random() < .25:
+                    conds.append(gens.pick(rng, usable))    # the very same condition string again, later in the history
+                    continue
+                if chain_names_ready[0] and rng.random() < .3:
+                    # conditions on chain metrics (small integers; -1 for unselected cycles)
+                    cname = gens.pick(rng, ['chain_position', 'chain_len_cycles', 'chain_ind'])
+                    conds.append((cname, gens.pick(rng, sorted(OPS)), literal(rng, float(gens.pick(rng, [-1, 0, 0, 1, 2])))))
+                    continue
                 name = gens.pick(rng, names)
                 op = gens.pick(rng, sorted(OPS))
                 col = shadow[name]
@@ -216,13 +269,20 @@ def gen_history(rng, ref):
                     thr = float(fin[int(rng.integers(len(fin)))])
                 conds.append((name, op, literal(rng, thr)))
             kind = gens.pick(rng, ['pick', 'pick', 'match', 'table_conditions'])
+            if kind == 'pick' and any(c[0] in TIMING or c[0] == 'chain_ind' for c in conds):
+                # a selection defined through the chain metrics of the previous selection would overwrite the very metrics
+                # its own stored conditions refer to (same ambiguity as overwriting a metric in use): query only
+                kind = gens.pick(rng, ['match', 'table_conditions'])
             h.append({'op': kind, 'conds': conds})
+            past_conds.extend(c for c in conds if c not in past_conds)
             have_subset = have_subset or kind == 'pick'
             if kind == 'pick':
                 in_use.clear()
                 in_use.update(c[0] for c in conds)
         elif r < .80:
             h.append({'op': 'chain_timings'})
+            if have_subset:
+                chain_names_ready[0] = True
         elif r < .86:
             h.append({'op': 'chain_metric', 'name': 'c%d' % (len(h) + 1), 'func': gens.pick(rng, ['max', 'mean', 'sum', 'len', 'first', 'last']),
                       'vals': np.round(rng.standard_normal(n), 1), 'dtype': 'int' if rng.random() < .3 else None})
@@ -288,6 +348,9 @@ def run_history(ctx, phase, hist, case):
                 expect = 'ok-or-raise'
         elif kind == 'timings':
             ref.timings()
+        elif kind in ('pick', 'match', 'table_conditions') and any(c[0] not in ref.metrics and c[0] not in aug_metrics for c in op['conds']):
+            expect = 'raise'      # a condition names a metric that was never computed (KeyError in any implementation)
+            ctx.count('conditions_on_missing_metric')
         elif kind == 'pick':
             ref.pick(op['conds'])
             picked = True
@@ -370,6 +433,8 @@ def run_history(ctx, phase, hist, case):
             ctx.count('expected_raises_observed')
         # ---- observables of query operations
         if st == 'ok' and kind == 'match':
+            if any(c[0] in TIMING or c[0] == 'chain_ind' for c in op['conds']):
+                ctx.count('conditions_on_chain_metrics')
             want = ref.matching(op['conds'])
             for which, (_, out) in results.items():
                 if not np.array_equal(out.reshape(-1), want):
